@@ -206,7 +206,12 @@ class ExpressionBase(metaclass=ABCMeta):
                 into a python equivalent.
         """
         try:
-            self._sympy_expr = sympy.simplify(expression)
+            if expression.has(sympy.core.relational.Relational):
+                # sympy's simplification of inequalities is unreliable, e.g.,
+                # `x**2 * sin(4) <= 1` becomes `x**2 <= 1/sin(4)` although sin(4) < 0
+                self._sympy_expr = expression
+            else:
+                self._sympy_expr = sympy.simplify(expression)
         except TypeError:
             # work-around for sympy bug (github.com/sympy/sympy/issues/19829)
             self._sympy_expr = expression
